@@ -38,6 +38,8 @@ TraceFailedCall  == IsEv("OpError") /\ FailedCall(E.t)
 TraceCommitStart == IsEv("CommitStart") /\ CommitStart(E.t)
 TraceCommitEnd   == IsEv("CommitEnd") /\ CommitEnd(E.t, E.ok)
 TraceRollback    == IsEv("Rollback") /\ Rollback(E.t)
+TraceCrash       == IsEv("Crash") /\ Crash(E.t)
+TraceLogs        == IsEv("Logs") /\ Logs(E.n)
 TraceRemoveStore == IsEv("RemoveStore") /\ RemoveStore(E.s)
 TraceObserve     == IsEv("Observe") /\ (Observe(E.s, E.exists, E.items, E.count)
                                         \/ ObserveMaybe(E.s, E.exists, E.items, E.count))
@@ -46,7 +48,7 @@ TraceLin         == \E t \in DOMAIN tx : Lin(t) /\ UNCHANGED l
 
 TraceNext == \/ TraceReset \/ TraceBegin \/ TraceArm \/ TraceNewStore \/ TraceOpenStore \/ TraceOp
              \/ TraceCommitStart \/ TraceCommitEnd \/ TraceRollback \/ TraceRemoveStore \/ TraceObserve
-             \/ TraceLin \/ TraceFailedCall \/ TraceNewStoreBegin
+             \/ TraceLin \/ TraceFailedCall \/ TraceNewStoreBegin \/ TraceCrash \/ TraceLogs
 
 TraceSpec == TraceInit /\ [][TraceNext]_tvars
 
